@@ -153,6 +153,7 @@ IOCALLS = [("u6_%s_%s_%s_l%x" % ("inp" if inp else "out", w, ("m%d" % -i) if i <
 MOVSAFE = [("u6_mov_safe_%s_%s_l%x" % (w, ("m%d" % -sh) if sh < 0 else str(sh), live), w, sh, mn, mx, live)
            for (w, sh, mn, mx, live) in (("u8", 1, 0, 0, 0x0), ("u8", -1, -1, 2, 0x7ff), ("u64", 3, -2, 5, 0x50), ("u64", -4, -3, 0, 0x2a0),
                                          ("u16", 2, -1, 1, 0x10), ("u32", -1, -2, 2, 0x7f0), ("u16", -300, -1, 1, 0x3f0), ("u32", 1000, 0, 3, 0x0))]
+FRAMES = [("u6_frame_t%d_%s" % (t, "term" if term else "end"), t, term) for t in (0, 1, 2, 13) for term in (False, True)]
 MOVS = [("u6_mov_unsafe_%s_%s" % (w, ("m%d" % -s) if s < 0 else str(s)), w, s) for w, s in (("u8", 1), ("u8", -1), ("u64", 3), ("u64", -200), ("u16", 100), ("u32", -2))]
 
 
@@ -224,9 +225,34 @@ fn dump<C: crate::CellType>(name: &str, instr: Instr<C>, live: u16, temps: usize
         Err(_) => println!("U6BYTES {} PANIC", name),
     }
 }
+/// prologue + marker + epilogue for `temps` temporaries; `via_term`: the body jumps to `term`
+fn dump_frame(name: &str, temps: usize, via_term: bool) {
+    let mut cg = CodeGen { locations: Vec::new(), reloc_br: Vec::new(), reloc_term: Vec::new(), term: 0, code: Vec::new() };
+    cg.emit_prologue(temps);
+    let body_at = cg.code.len();
+    cg.emit_epilogue(temps);
+    // machine state at the end of the prologue is what the body runs in: rsp_delta there must be
+    // a multiple of 16 away from the call-time alignment (checked by the call contracts); here the
+    // whole frame is run: prologue, then either fall into the epilogue or enter at `term`
+    let mut uops = decoder::decode(&cg.code[..body_at]);
+    let epi = decoder::decode(&cg.code[body_at..]);
+    if via_term {
+        let skip = decoder::decode(&cg.code[body_at..cg.term]).len();
+        uops.extend(epi.into_iter().skip(skip));
+    } else {
+        uops.extend(epi);
+    }
+    println!("U6BYTES {} {}", name, cg.code.iter().map(|b| format!("{:02x}", b)).collect::<Vec<_>>().join(""));
+    println!("U6UOPS {} {}", name, uops.iter().map(|u| format!("{:?}", u)).collect::<Vec<_>>().join(" ;; "));
+    // frame alignment: after the prologue rsp must be 16-byte aligned (entry rsp = 8 mod 16)
+    let pushes = 6; let aligned = if temps % 2 == 0 { temps + 1 } else { temps };
+    println!("U6FRAME {} {}", name, (8 + 8 * pushes + 8 * aligned) % 16);
+}
+
 #[test]
 fn verif_u6_dump() {
-%s
+VERIF_U6_BODY
+VERIF_U6_FRAME_CALLS
 }
 
 // ---- CPU conformance of the trusted x86 specification: the same instances, executed as REAL machine
@@ -258,7 +284,8 @@ def prepare(repo, tier, seed):
     fns = REPLAY_TMPL.split("use crate::CellType;\n", 1)[1].split("#[test]")[0].replace("VERIF_CEX_TMPS", "").replace("VERIF_CEX_MEMS", "")
     calls = "\n".join('    replay::<%s>("%s", %s, 0x%x);' % (w, n, ins, live)
                       for n, w, ins, live, temps, lim, safe, mn, mx, call in cases if "check_arith" in call)
-    open(dump_path, "w").write((DUMP_TMPL % body).replace("VERIF_U6_MODEL", model)
+    frame_calls = "\n".join('    dump_frame("%s", %d, %s);' % (n, t, "true" if term else "false") for n, t, term in FRAMES)
+    open(dump_path, "w").write(DUMP_TMPL.replace("VERIF_U6_BODY", body).replace("VERIF_U6_FRAME_CALLS", frame_calls).replace("VERIF_U6_MODEL", model)
                                .replace("VERIF_U6_REPLAY_FNS", fns).replace("VERIF_U6_REPLAY_CALLS", calls))
     with open(os.path.join(repo, "src/exec/basejit/codegen.rs"), "a") as fh:
         fh.write('\n#[cfg(all(test, hpbf_verif_dump))]\n#[path = "%s"]\nmod verif_u6_dump;\n' % dump_path)
@@ -275,7 +302,8 @@ def prepare(repo, tier, seed):
     uops = dict(re.findall(r"U6UOPS (\S+) (.*)", p.stdout))
     import shutil
     shutil.rmtree(os.path.join(repo, "target_native"), ignore_errors=True)
-    if len(got) < len(cases):
+    frame_align = dict(re.findall(r"U6FRAME (\S+) (\d+)", p.stdout))
+    if len(got) < len(cases) + len(FRAMES):
         raise RuntimeError("native dump stage failed (%d of %d instances): %s" % (len(got), len(cases), (p.stdout + p.stderr)[-800:]))
     out = [open(os.path.join(HERE, "u6_jit.rs.in")).read().replace("VERIF_U6_MODEL", model)
            .replace("VERIF_PARAM_PROVE_EMISSION", "false")]
@@ -298,6 +326,10 @@ def prepare(repo, tier, seed):
             kind = "true" if "check_branch" in call else "false"
             out.append("#[kani::proof]\n#[kani::unwind(%d)]\nfn %s_emits() {\n    prove_emission::<%s>(&CODE_%s, %s, 0x%x, %d, %s, %s, %s, %s, %s);\n}\n" % (
                 max(len(bs) + 3, 18), n, w, n.upper(), ins, live, temps, "true" if lim else "false", "true" if safe else "false", mn, mx, kind))
+    for n, t, term in FRAMES:
+        steps = ["    m.exec(%s);" % u for u in uops.get(n, "Unsupported").split(" ;; ")]
+        out.append("fn run_%s(m: &mut M) {\n%s\n}\n#[kani::proof]\n#[kani::unwind(20)]\nfn %s() {\n    assert!(%s == 0, \"frame leaves rsp misaligned\");\n    check_frame::<0>(run_%s, %d, %s);\n}\n" % (
+            n, "\n".join(steps), n, frame_align.get(n, "1"), n, t, "true" if term else "false"))
     return [{"src": "\n".join(out), "dest": "src/exec/basejit/verif_u6_jit.rs",
              "mod_in": "src/exec/basejit/codegen.rs", "mod_name": "verif_u6", "params": {}}]
 
@@ -334,6 +366,10 @@ def harnesses(tier, seed):
             hs.append({"name": MOD + n + "_emits", "function": "basejit::CodeGen::{emit_program, fix_relocations} + asm.rs emitters (symbolic execution of the real emitter)",
                        "clause": "the real emitter appends exactly the bytes the native stage recorded for this instance",
                        "properties": ["C03"], "bounded_by": "one concrete instruction", "complete_over": "-", "timeout": 1500})
+    for n, tt, term in FRAMES:
+        hs.append({"name": MOD + n, "function": "basejit::CodeGen::{emit_prologue, emit_epilogue} temps=%d (%s)" % (tt, "termination path" if term else "normal end"),
+                   "clause": "on return: rax = %d, callee-saved registers (rbx rbp r12-r15) and rsp restored, rsp 16-byte aligned inside the body" % (0 if term else 1),
+                   "properties": ["C03"], "bounded_by": "temps in {0,1,2,13}", "complete_over": "all machine states", "timeout": t})
     for n, w, sh, mn, mx, live in MOVSAFE:
         hs.append({"name": MOD + n, "function": "basejit::CodeGen::{emit_program (Mov arm, safe == true), emit_pre_call, emit_post_call} <%s> shift=%d window=[%d,%d] live=0x%x" % (w, sh, mn, mx, live),
                    "clause": "pointer advances by shift cells; far edge of the window tested against the context's current bounds; inside: nothing else; outside: offset := probe index, hpbf_context_extend(cxt, 0, 1) called with live temporaries saved and rsp aligned, pointer re-based as buffer' + (offset' - probe) * cell size; no tape byte written",
